@@ -159,7 +159,8 @@ func c19(w *World) {
 		d := mk("out", false, outTypes[w.W.Draw(len(outTypes))])
 		regs = append(regs, func() { regOut(d) })
 	}
-	inTypes := []string{"0", "1", "D", "V"}
+	// "2" and "A" have handlers of the session itself ahead of the application's: those must pass the message on
+	inTypes := []string{"0", "1", "D", "V", "2", "A", "5"}
 	for i := 0; i < nAllIn; i++ {
 		d := mk("in", true, "")
 		regs = append(regs, func() { regIn(d) })
@@ -243,7 +244,21 @@ func c19(w *World) {
 	var inbound [][]byte
 	for i := 0; i < nIn; i++ {
 		var raw []byte
-		switch w.W.Draw(5) {
+		switch w.W.Draw(8) {
+		case 7:
+			// a damaged administrative message (the session rejects it; the application's handlers for the
+			// type are offered the bytes all the same). Logout only in this form: a valid one would end the session
+			typ := []string{"5", "0", "1", "2", "A"}[w.W.Draw(5)]
+			raw = Build(AdminMsg(typ, sc.NextSeq(), sc.PeerID, sc.LibID), WireOpts{BadSum: true})
+			w.Probe("inbound_damaged_admin")
+		case 5:
+			// a ResendRequest for numbers never sent: nothing is retransmitted, the application's handlers
+			// for the type still get the message
+			raw = sc.Msg("2", FI(TagBeginSeqNo, 9000+i), FI(TagEndSeqNo, 9001+i))
+			w.Probe("inbound_resendrequest_beyond")
+		case 6:
+			raw = sc.Msg("A", LogonFields(hb, "0", "", "")...) // a Logon while logged on: rejected, and still offered
+			w.Probe("inbound_second_logon")
 		case 0:
 			raw = sc.Msg("0")
 		case 1:
